@@ -27,6 +27,8 @@ def new_exec(mod, unwind=70):
                     info = (cstring(e, s, a[0]), a[2])
                 except Exception:
                     info = None
+            elif kind == 'throw' and len(a) > 1 and isinstance(a[1], Ptr) and a[1].r in s.mem:
+                info = s.mem[a[1].r].name
             e.exits.append((list(s.pc), kind, info))
             return DEAD
         return f
